@@ -3138,6 +3138,9 @@ class Trimesh(Geometry3D):
 
         # get metadata
         copied.metadata = copy.deepcopy(self.metadata)
+        # per-face and per-vertex attributes belong to the mesh too
+        copied.face_attributes.update(copy.deepcopy(self.face_attributes))
+        copied.vertex_attributes.update(copy.deepcopy(self.vertex_attributes))
 
         # make sure cache ID is set initially
         copied._cache.verify()
